@@ -14,7 +14,8 @@ LAST = 2958465
 DAY_FORMULA = ('{YEAR(vn),MONTH(vn),DAY(vn),DATEVALUE(vd),N(vd),DAYS(vd,vb),vd-vb,DATEVALUE(vn),'
                'DATEVALUE(DATE(vy,vm,vdd)),YEAR(vd),MONTH(vd),DAY(vd),WEEKDAY(vd,1),WEEKDAY(vd,2),WEEKDAY(vd,3),'
                'vd=vn,vd<vn+1,DATEVALUE(vnext),vd+0,vd+vk,vd-7,'
-               'YEAR(DATE(vy,vm,vdd)),MONTH(DATE(vy,vm,vdd)),DAY(DATE(vy,vm,vdd)),WEEKDAY(DATE(vy,vm,vdd),2)}')
+               'YEAR(DATE(vy,vm,vdd)),MONTH(DATE(vy,vm,vdd)),DAY(DATE(vy,vm,vdd)),WEEKDAY(DATE(vy,vm,vdd),2),'
+               'DAYS(vd,DATEVALUE(vb)),DAYS(vn,vb),DAYS(DATEVALUE(vd),N(vb))}')
 
 
 def enc_serial(v):
